@@ -76,3 +76,127 @@ def c06_no_everywhere_append(rep, tier, seed):
                       dict(obligation=name, got=None))
     else:
         rep.violation("finite:_analyze_form:everywhere", name, dict(obligation=name, got=found))
+
+
+def c20_cli_priority(rep, tier, seed):
+    """main.main forwards an FFCx option to get_options as a priority option iff it was given on the
+    command line (argparse external). Exhaustive over: every option x {absent, given with each choice /
+    its default value / another value}, and all pairs of options."""
+    import itertools
+    import unittest.mock
+
+    import ffcx.main as M
+    from ffcx.options import FFCX_DEFAULT_OPTIONS
+
+    def values(name):
+        typ, default, _, choices = FFCX_DEFAULT_OPTIONS[name]
+        if isinstance(default, bool):
+            return [True]
+        if choices:
+            return list(choices)
+        if typ is float:
+            return [default, 0.5]
+        if typ is int:
+            return [default, 10]
+        return [default, "numba"] if name == "language" else [default]
+
+    def run(given):
+        argv = []
+        for k, v in given.items():
+            argv += [f"--{k}"] if isinstance(FFCX_DEFAULT_OPTIONS[k][1], bool) else [f"--{k}", str(v)]
+        captured = {}
+
+        def fake_get_options(priority_options=None):
+            captured["p"] = priority_options
+            return {k: v[1] for k, v in FFCX_DEFAULT_OPTIONS.items()}
+
+        with unittest.mock.patch.object(M, "get_options", fake_get_options):
+            rc = M.main(argv)
+        return argv, captured.get("p"), rc
+
+    names = list(FFCX_DEFAULT_OPTIONS)
+    cases = [dict()]
+    for n in names:
+        for v in values(n):
+            cases.append({n: v})
+    for a, b in itertools.combinations(names, 2):
+        cases.append({a: values(a)[0], b: values(b)[-1]})
+    n_ok = 0
+    for given in cases:
+        try:
+            argv, prio, rc = run(given)
+        except SystemExit as e:
+            rep.undecide(f"cli {given}", f"argparse exited {e}")
+            continue
+        prio = prio or {}
+        for k in names:
+            name = f"cli argv={argv}: option {k} is a priority option iff given"
+            if k in given:
+                ok = k in prio and prio[k] == given[k]
+            else:
+                ok = k not in prio
+            if ok:
+                n_ok += 1
+                rep.ob(name, "proved", "exhaustive-finite", "exhaustive", sample=dict(argv=argv, priority=str(prio)) if n_ok == 3 else None)
+            else:
+                kind = "given-but-dropped" if k in given else "absent-but-forwarded"
+                rep.violation(f"cli:{k}:{kind}", f"ffcx {' '.join(argv)}: priority options {prio}: {k} {kind}; an "
+                              "ffcx_options.json value is then " + ("not overridden by the command line" if k in given else "overridden by a flag that was not given"),
+                              dict(obligation=name, argv=argv, priority=str(prio), how_to_replay="ffcx.main.main(argv) with get_options patched to capture its argument"))
+
+
+def c20_same_entry(rep, tier, seed):
+    """The CLI and the JIT both generate code through compiler.compile_ufl_objects with the merged options."""
+    import ast
+
+    for path, qual, callee in (("ffcx/main.py", "main", "compiler.compile_ufl_objects"),
+                               ("ffcx/codegeneration/jit.py", "_compile_objects", "ffcx.compiler.compile_ufl_objects")):
+        node = find_def(os.path.join(REPO, path), qual)
+        if node is None:
+            rep.undecide(f"{qual}", "anchor missing")
+            continue
+        calls = [n for n in ast.walk(node) if isinstance(n, ast.Call) and ast.unparse(n.func) == callee]
+        name = f"{path}::{qual} generates code through {callee} with options=options"
+        ok = len(calls) == 1 and any(k.arg == "options" and ast.unparse(k.value) == "options" for k in calls[0].keywords)
+        if ok:
+            rep.ob(name, "proved", "exhaustive-finite", "exhaustive")
+        else:
+            rep.violation(f"finite:{qual}:entry", name, dict(obligation=name, calls=[ast.unparse(c) for c in calls]))
+
+
+def c20_sanitise(rep, tier, seed):
+    """sanitise_filename yields a C identifier fragment: exhaustive over all single code points < 0x3000 in three
+    contexts, sampled strings otherwise (bounded)."""
+    import ast
+    import pathlib
+    import random
+    import re
+    import string
+
+    node = find_def(os.path.join(REPO, "ffcx/main.py"), "main.sanitise_filename")
+    if node is None:
+        rep.undecide("sanitise_filename", "anchor missing")
+        return
+    ns = dict(pathlib=pathlib, re=re, string=string)
+    exec(compile(ast.Module([node], []), "sanitise_filename", "exec"), ns)  # noqa: S102 - the real source text
+    f = ns["sanitise_filename"]
+    ok_re = re.compile(r"[A-Za-z0-9_]*\Z")
+    bad = []
+    n = 0
+    for cp in range(1, 0x3000):
+        ch = chr(cp)
+        for s in (ch, f"a{ch}b.py", f"dir/{ch}{ch}.ufl"):
+            n += 1
+            if not ok_re.match(f(s)):
+                bad.append(s)
+    rnd = random.Random(seed)
+    for _ in range(3000):
+        s = "".join(chr(rnd.choice([rnd.randint(32, 126), rnd.randint(128, 0x2FFF)])) for _ in range(rnd.randint(0, 12)))
+        n += 1
+        if not ok_re.match(f(s)):
+            bad.append(s)
+    name = "sanitise_filename(name) matches [A-Za-z0-9_]*"
+    if bad:
+        rep.violation("sanitise:" + repr(bad[0]), f"{name} fails for {bad[0]!r} -> {f(bad[0])!r}", dict(obligation=name, inputs=bad[:5]))
+    else:
+        rep.ob(f"{name} ({n} inputs)", "proved", "runtime-contract", "bounded")
